@@ -86,6 +86,16 @@ def select_before_assign(ctx, clause):
     return obs, n
 
 
+def _marked(outs):
+    """The set a removal detector returns (whichever way it was built: add-loop, comprehension, filter)."""
+    if len(outs) != 1 or outs[0][0] != "return":
+        return None
+    v = outs[0][1]
+    if isinstance(v, (set, frozenset, list, tuple)):
+        return sorted(v)
+    return sorted(e[1] for e in outs[0][2])
+
+
 def removal_tables(ctx, clause):
     p = ctx.p
     obs = []
@@ -93,7 +103,7 @@ def removal_tables(ctx, clause):
     f = p.func("shexer.core.shexing.class_shexer:ClassShexer._detect_shapes_to_remove")
     shapes = ({"n_statements": 0, "name": "EMPTY"}, {"n_statements": Sym("n>0", int, {0: ">"}), "name": "FULL"})
     outs = ev.outcomes(f, {}, {"self._shapes_list": shapes})
-    added = sorted(e[1] for o in outs for e in o[2]) if len(outs) == 1 else None
+    added = _marked(outs)
     ok = added == ["EMPTY"]
     obs.append(Ob(clause, "R-TABLE", "R-TABLE|ClassShexer._detect_shapes_to_remove", f.loc(), ok,
                   "a shape is marked for removal iff it has no statement" if ok else "marks %s for {EMPTY(0 statements), FULL}" % (outs,)))
@@ -104,7 +114,7 @@ def removal_tables(ctx, clause):
             env = {"self._classes_shape_dict": {"K": None}, "self._original_target_nodes": ("K",) if tgt else (),
                    "self._strategy": {"has_shape_annotated_features()": feat}}
             outs = ev.outcomes(g, {}, env)
-            added = sorted(e[1] for o in outs for e in o[2]) if len(outs) == 1 else None
+            added = _marked(outs)
             want = [] if (tgt or feat) else ["K"]
             ok = added == want
             obs.append(Ob(clause, "R-TABLE", "R-TABLE|ClassProfiler._detect_shapes_to_remove|target=%s,features=%s" % (tgt, feat),
